@@ -257,6 +257,18 @@ Theorem L3_message_searchid :
 Proof. exact msearchid_searchid. Qed.
 Print Assumptions L3_message_searchid.
 
+(* Search and RangeGet: the values of the searchID triple read through getLeaf / VLenArray.get *)
+Theorem L3_message_search :
+  forall o keys vals T m vs q fuel,
+    build o keys vals = Ok T -> encode_trie T = Val m -> init_vars m = Val vs ->
+    (trie_height T <= fuel)%nat ->
+    msearch (S fuel) m vs q = search T q /\ mrangeget (S fuel) m vs q = rangeget T q.
+Proof.
+  intros o keys vals T m vs q fuel Hb Em Ev Hf.
+  split; [exact (msearch_search o keys vals T m vs q fuel Hb Em Ev Hf)|exact (mrangeget_rangeget o keys vals T m vs q fuel Hb Em Ev Hf)].
+Qed.
+Print Assumptions L3_message_search.
+
 (* C01 end to end at the bit level: every retained key is found THROUGH THE MESSAGE with the
    bytes of its supplied value *)
 Theorem L3_message_no_false_negatives :
